@@ -3,8 +3,8 @@ import XdslProofs.Lemmas.StructEq
 # C03 — structural equivalence holds exactly for isomorphic IR
 
 Model: `XdslModel/StructEq.lean` (`structEq` = the walk of
-`Operation/Block/Region.is_structurally_equivalent` with its `context` dictionary, as repaired by
-the C03 `fix:` commit).  Vocabulary (`XdslProofs/Lemmas/StructEq.lean`):
+`Operation/Block/Region.is_structurally_equivalent` with its `context` dictionary followed by the
+final one-to-one check, as repaired by the C03 `fix:` commits).  Vocabulary (`XdslProofs/Lemmas/StructEq.lean`):
 
 * `Agree f a b` — under the map `f` of values and blocks every operation agrees on name, operands
   (`f`-images), result types, attributes, properties, successors and nested regions, every block on
@@ -19,16 +19,16 @@ the C03 `fix:` commit).  Vocabulary (`XdslProofs/Lemmas/StructEq.lean`):
   the tree at all.  Not scoped = a value of a nested region used outside of it before the walk
   gets there (invalid IR under MLIR's scoping rules);
 * `Sep a b` — what `a` takes from outside is not a definition of `b`.  Fails only when the two
-  compared trees are parts of one program and one refers into the other (known finding: the
-  implementation would need the reverse of its context map to notice).
+  compared trees are parts of one program and one refers into the other; the repaired code checks
+  it after the walk (`oneToOne`, lemma `oneToOne_iff_sep`), so no theorem needs it as hypothesis.
 -/
 namespace Xdsl.StructEq
 
 /-- "The check is reflexive (including IR with graph regions or values used before their
 definition)": for EVERY tree — no well-formedness, scoping or ordering hypothesis at all. -/
 theorem structEq_refl (a : T) : structEq a a = true := by
-  obtain ⟨c', e, _⟩ := eqT_self a [] (by intro k x h; simp at h)
-  simp [structEq, e]
+  obtain ⟨c', e, hp⟩ := eqT_self a [] (by intro k x h; simp at h)
+  simp [structEq, e, oneToOne_pid hp]
 
 /-- The independent decision procedure (`iso` in the driver's answers; the harness's Python oracle
 is compared with it) decides `Iso`: the only candidate correspondence is the positional one. -/
@@ -42,39 +42,37 @@ operation agree …", direction ⇐ (no isomorphic pair is rejected), for every 
 graph regions, use-before-def, blocks in any order included. -/
 theorem structEq_complete {a b : T} (hwa : WF a) (hsc : Scoped a) (h : Iso a b) :
     structEq a b = true :=
-  (structEq_iff_agree hwa hsc).mpr (iso_imp_agree hwa h).1
+  (structEq_iff_agree hwa hsc).mpr (iso_imp_agree hwa h)
 
 /-- Direction ⇒ (only isomorphic pairs are accepted: names, operand wiring, result types,
-attributes, properties, successors, regions, block argument types all matter).
-PARTIAL: needs `Sep a b`.  Full statement `structEq a b = true → Iso a b` is false for the code,
-see `structEq_sound_counterexample` (known finding). -/
-theorem structEq_sound_partial {a b : T} (hwa : WF a) (hwb : WF b) (hsc : Scoped a) (hsep : Sep a b)
+attributes, properties, successors, regions, block argument types all matter, and the
+correspondence is one-to-one also on what the trees take from outside).  No separation hypothesis:
+two parts of one program that refer into each other are covered. -/
+theorem structEq_sound {a b : T} (hwa : WF a) (hwb : WF b) (hsc : Scoped a)
     (h : structEq a b = true) : Iso a b :=
-  agree_imp_iso hwa hwb ⟨(structEq_iff_agree hwa hsc).mp h, hsep⟩
+  agree_imp_iso hwa hwb ((structEq_iff_agree hwa hsc).mp h)
 
-/-- The property's "exactly when", under the separation hypothesis. PARTIAL for the same reason. -/
-theorem structEq_iff_iso_partial {a b : T} (hwa : WF a) (hwb : WF b) (hsc : Scoped a)
-    (hsep : Sep a b) : structEq a b = true ↔ Iso a b :=
-  ⟨structEq_sound_partial hwa hwb hsc hsep, structEq_complete hwa hsc⟩
+/-- The property's "exactly when". -/
+theorem structEq_iff_iso {a b : T} (hwa : WF a) (hwb : WF b) (hsc : Scoped a) :
+    structEq a b = true ↔ Iso a b :=
+  ⟨structEq_sound hwa hwb hsc, structEq_complete hwa hsc⟩
 
-/-- Without `Sep` the verdict still pins down everything except the separation itself: equivalent
-⇔ all fields agree under the positional correspondence. -/
+/-- The verdict spelled out on the positional correspondence: equivalent ⇔ all fields agree under
+it and nothing `a` takes from outside is a definition of `b`. -/
 theorem structEq_iff_agree_positional {a b : T} (hwa : WF a) (hsc : Scoped a) :
-    structEq a b = true ↔ Agree (lookup (pairs a b)) a b :=
+    structEq a b = true ↔ Agree (lookup (pairs a b)) a b ∧ Sep a b :=
   structEq_iff_agree hwa hsc
 
 /-- The relation the check is meant to decide is symmetric … -/
 theorem iso_symmetric {a b : T} (hwa : WF a) (hwb : WF b) : Iso a b ↔ Iso b a :=
   ⟨iso_symm hwa hwb, iso_symm hwb hwa⟩
 
-/-- … and so is the check ("symmetric"), PARTIAL: when neither tree refers into the other.  The
-full statement is false for the code: `structEq_symm_counterexample`. -/
-theorem structEq_symm_partial {a b : T} (hwa : WF a) (hwb : WF b) (hsa : Scoped a) (hsb : Scoped b)
-    (hab : Sep a b) (hba : Sep b a) : structEq a b = structEq b a := by
-  have h1 : structEq a b = true → structEq b a = true := fun h =>
-    (structEq_iff_agree hwb hsb).mpr (agree_swap hwa hwb hab ((structEq_iff_agree hwa hsa).mp h))
-  have h2 : structEq b a = true → structEq a b = true := fun h =>
-    (structEq_iff_agree hwa hsa).mpr (agree_swap hwb hwa hba ((structEq_iff_agree hwb hsb).mp h))
+/-- … and so is the check ("symmetric"), for every pair of region-scoped trees. -/
+theorem structEq_symm {a b : T} (hwa : WF a) (hwb : WF b) (hsa : Scoped a) (hsb : Scoped b) :
+    structEq a b = structEq b a := by
+  have h : structEq a b = true ↔ structEq b a = true := by
+    rw [structEq_iff_iso hwa hwb hsa, structEq_iff_iso hwb hwa hsb]
+    exact iso_symmetric hwa hwb
   cases hx : structEq a b <;> cases hy : structEq b a <;> simp_all
 
 /-- A clone (objects defined inside get fresh, pairwise distinct identities; references to
@@ -90,25 +88,19 @@ theorem structEq_clone (ρ : Nat → Nat) {a : T} (hwa : WF a) (hsc : Scoped a)
     (hfresh : ∀ x ∈ defs a, ρ x ∉ vals a) : structEq a (cloneT ρ a) = true :=
   structEq_complete hwa hsc (iso_clone ρ a hinj hfresh)
 
-/-! ## Counterexamples to the full statements (the known finding) and non-vacuity -/
+/-! ## The former counterexample (repaired finding) and non-vacuity -/
 
 /-- `%1 = "op"(%2)` — uses `%2` from outside -/
 def cexA : T := .op ⟨0, [2], [(1, 0)], [], [], []⟩ .nil .nil
 /-- `%2 = "op"(%2)` — uses its own result (graph region) -/
 def cexB : T := .op ⟨0, [2], [(2, 0)], [], [], []⟩ .nil .nil
 
-/-- Both trees are well-formed and scoped, `a` is reported equivalent to `b`, yet no isomorphism
-exists: `%2` would have to be the image of `%1` (results) and of itself (kept external). -/
-theorem structEq_sound_counterexample :
-    WF cexA ∧ WF cexB ∧ Scoped cexA ∧ Scoped cexB ∧ structEq cexA cexB = true ∧ ¬ Iso cexA cexB := by
-  have wa : WF cexA := by decide
-  have wb : WF cexB := by decide
-  refine ⟨wa, wb, by decide, by decide, by decide, ?_⟩
-  rw [← isoDecide_iff wa wb]
+/-- The pair that the walk alone accepts in one order (every lookup succeeds: `%2` stands for
+itself in `a` and is the image of `%1`) is rejected in both orders by the repaired check, in
+accordance with `¬ Iso`: `%2` would have to be the image of `%1` (results) and of itself. -/
+example : WF cexA ∧ WF cexB ∧ Scoped cexA ∧ Scoped cexB ∧ (eqT cexA cexB []).isSome = true
+    ∧ structEq cexA cexB = false ∧ structEq cexB cexA = false ∧ isoDecide cexA cexB = false := by
   decide
-
-theorem structEq_symm_counterexample :
-    structEq cexA cexB = true ∧ structEq cexB cexA = false := by decide
 
 /-- a module-like tree: a graph region whose first op uses the result of the second, a nested
 region using an enclosing later value, two blocks with successors in both directions -/
